@@ -563,6 +563,49 @@ def rd_multi(rng):
     return spec, [mk(0) for _ in range(n + 2)], dict(policy=rng.choice(["random", "lifo", "fifo"]))
 
 
+def rd_exit(rng, how_fixed=None):
+    """runner differential: runs that END by cancellation, by the workflow timeout, by a step failure or by a result -
+    a gate-driven fan-out whose workers fail and are retried after a delay (so that time passes), cancelled from outside
+    at a scheduler-chosen moment or given a workflow timeout that never coincides with a retry wake-up (x.25 s)"""
+    n = rng.choice([1, 2, 3])
+    k = rng.choice([1, 2, 3])
+    how = rng.choice(["cancel", "timeout", "timeout", "fail", "result"])
+    how = how_fixed or how
+    fail = rng.choice([1, 2]) if how != "fail" else 9
+    delay = rng.choice([0.5, 2.0])
+    pol = rp.retry_policy(wait=rp.wait_fixed(delay), stop=rp.stop_after_attempt(4 if how != "fail" else 2))
+    work = [("gate", "w"), ("fail_until", fail, "value"), ("return", T2)]
+    spec = dict(steps={
+        "a_start": dict(accepts=[StartEvent], returns=[T1, type(None)], num_workers=1,
+                        script=[("send", T1, n, None), ("return", None)]),
+        "b_work": dict(accepts=[T1], returns=[T2], num_workers=k, policy=pol, script=work),
+        "c_gather": dict(accepts=[T2], returns=[StopEvent, type(None)], num_workers=1,
+                         script=[("gate", "c"), ("collect", [T2] * n, None), ("return", StopEvent)]),
+    }, timeout=(rng.choice([0.25, 1.25, 3.25]) if how == "timeout" else None))
+    spec["rd_exit"] = how
+    ext = []
+    if how == "cancel":
+        def cancel(handler, rec):
+            import asyncio
+            rec.ev("external", ev="cancel")
+            asyncio.ensure_future(handler.cancel_run())
+        cancel.label = "cancel_run"
+        ext = [cancel]
+    return spec, ext, dict(policy=rng.choice(["random", "lifo", "fifo"]), time_bias=0.3)
+
+
+def rd_exit_cancel(rng):
+    return rd_exit(rng, "cancel")
+
+
+def rd_exit_timeout(rng):
+    return rd_exit(rng, "timeout")
+
+
+def rd_exit_fail(rng):
+    return rd_exit(rng, "fail")
+
+
 def rd_ir(rng):
     n = rng.choice([1, 2, 3])
     spec = dict(steps={
